@@ -14,6 +14,13 @@ NRec == Len(Rec)
 
 ASSUME TLCSet(1, 1)
 
+(* Named deviations.  A trace module may contain an action that accepts what the code is KNOWN to do
+   wrong (a genuine defect recorded in /verif/known_findings.json).  Such an action is enabled only
+   when the driver exports the finding's variable (it does so only for findings listed as open), and
+   it prints <<"KNOWN", json>> so that every use is counted and reported as KNOWN-FINDING.         *)
+KnownOpen(id) == id \in DOMAIN IOEnv /\ IOEnv[id] = "1"
+NoteKnown(id, l) == PrintT(<<"KNOWN", ToJson([id |-> id, idx |-> l])>>)
+
 Progress(l) == IF TLCGet(1) < l THEN TLCSet(1, l) ELSE TRUE
 
 Accepted ==
